@@ -34,6 +34,14 @@ fn run(r: &mut Run) -> Result<(), MachineryError> {
             cx.set_input(&s);
             check_text(&s, cx);
         }
+    })?;
+    r.range("C19/representative-pairs", &format!("{}; each pair (x,y) in the texts \"a\\nxy\\nb\", \"xy\", \"x\\ny\", \"xy\\n yx\\n\" x 6 prefixes", reps::pair_desc(t)), reps::pair_space(t), move |i, cx| {
+        let (x, y) = reps::pair_at(t, i);
+        cx.seq = idx_seq(i);
+        for s in [format!("a\n{x}{y}\nb"), format!("{x}{y}"), format!("{x}\n{y}"), format!("{x}{y}\n {y}{x}\n")] {
+            cx.set_input(&s);
+            check_text(&s, cx);
+        }
     })
 }
 
